@@ -184,6 +184,15 @@ Compile(items, args, dbg) ==
 
 \* Verdict of the compiled program on a witness assignment (name -> value, typed by wtypes)
 RunSimp(term, wit, wtypes) ==
-  LET W == [n \in DOMAIN wit |-> ToStruct(wit[n], wtypes[n])]
+  LET W == [wit |-> [n \in DOMAIN wit |-> ToStruct(wit[n], wtypes[n])], env |-> DummyEnv]
   IN ~IsSFail(EvS(term, SVU, W))
+\* the same under a transaction environment; and the pruned program (branches not taken on this run
+\* replaced by their hash): [ok, prunedOK, skelSame]
+RunSimpEnv(term, wit, wtypes, env) ==
+  LET W == [wit |-> [n \in DOMAIN wit |-> ToStruct(wit[n], wtypes[n])], env |-> env]
+  IN ~IsSFail(EvS(term, SVU, W))
+PruneCheck(term, wit, wtypes, env) ==
+  LET W == [wit |-> [n \in DOMAIN wit |-> ToStruct(wit[n], wtypes[n])], env |-> env]
+      p == PruneRun(term, SVU, W).t
+  IN [prunedOK |-> ~IsSFail(EvS(p, SVU, W)), skelSame |-> Skel(p) = Skel(term)]
 =============================================================================
